@@ -36,6 +36,7 @@ def run_c08(res, tier):
     ast = load_ast()
     iolim.run_io_map(res, ast)
     iolim.run_io_discipline(res, ast)
+    iolim.run_io_nested(res, ast)
     jit.run_jit_rules(res, ast, ["JIT-TERM"])
     import mirrules
     from mir import load_facts
